@@ -347,5 +347,12 @@ def _tests_both_alive(prog: Program, sg, cond: ast.expr, depth: int = 0) -> bool
     return False
 
 
+def _sg_sweep(prog):
+    # the sweep that removes what dead instances left behind is the one C13 relies on for its census
+    from .c13 import sg_sweep
+
+    return sg_sweep(prog)
+
+
 def run(prog: Program, tier: str) -> List[RuleResult]:
-    return [sg_coherence(prog), idkey(prog), rel_gate(prog), sg_purge_directions(prog), rel_live(prog)]
+    return [sg_coherence(prog), idkey(prog), rel_gate(prog), sg_purge_directions(prog), rel_live(prog), _sg_sweep(prog)]
